@@ -107,7 +107,7 @@ func (e *env) checkFuser(fc *fuserCase, seed int64) error {
 			return err
 		}
 		if len(v.Bytes()) != it.Sz {
-			return fmt.Errorf("harness: value %s has %d bytes, want %d", zson.FormatValue(v), len(v.Bytes()), it.Sz)
+			return fmt.Errorf("harness: value %s has %d bytes, want %d", format(v), len(v.Bytes()), it.Sz)
 		}
 		leaves, _ := leavesOf(v)
 		ins = append(ins, input{val: v, typeIx: i, leaves: leaves})
